@@ -255,6 +255,42 @@ func scenarios() []*sched.Scenario {
 			},
 			func(w *world) { w.set(2, w.root, k2, "b"); w.del(2, w.v00, "\x01") },
 		}},
+		// committing a batch without queued mutations (fresh, or emptied by Cancel) is a no-op that must leave the view usable
+		{name: "empty-and-cancelled-batch-commit", init: map[string]string{k2: "a"}, thr: []func(w *world){
+			func(w *world) {
+				w.batch(1, w.root)
+				b, err := w.v00.s.Batched()
+				must(err)
+				must(b.Set([]byte("\x02"), []byte("z")))
+				b.Cancel()
+				must(b.Commit())
+				w.set(1, w.root, k1, "b")
+				w.get(1, w.v00, "\x02")
+			},
+			func(w *world) { w.get(2, w.v00, "\x01"); w.has(2, w.root, k2) },
+		}},
+		// one batch object used by two goroutines (its methods are synchronised): a mutation queued while another goroutine
+		// commits is written by that commit or by the next one, never dropped
+		{name: "shared-batch-set-vs-commit", thr: []func(w *world){
+			func(w *world) {
+				b, err := w.root.s.Batched()
+				must(err)
+				t := w.rec.Call()
+				vrt.Par(func() {
+					must(b.Set([]byte(k1), []byte("c")))
+					must(b.Commit())
+				}, func() {
+					must(b.Set([]byte(k2), []byte("d")))
+				})
+				must(b.Commit())
+				w.rec.ReturnMany(1, t, []lin.Input{{Op: "set", Key: lin.Hex([]byte(k1)), Val: lin.Hex([]byte("c"))}, {Op: "set", Key: lin.Hex([]byte(k2)), Val: lin.Hex([]byte("d"))}})
+				for _, kv := range [][2]string{{k1, "c"}, {k2, "d"}} {
+					if got, err := w.root.s.Get([]byte(kv[0])); err != nil || string(got) != kv[1] {
+						vrt.Fail("batch|queued-write-lost", "key %x queued on a shared batch before its last Commit reads (%q, %v) afterwards, want %q", kv[0], got, err, kv[1])
+					}
+				}
+			},
+		}},
 		{name: "batch-vs-deleteprefix-set", thor: true, init: map[string]string{k2: "a"}, thr: []func(w *world){
 			func(w *world) { w.batch(1, w.v00, bop{key: "\x01", val: "a"}, bop{key: "\x02", val: "b"}) },
 			func(w *world) { w.delPrefix(2, w.root, "\x00") },
